@@ -46,6 +46,8 @@ class Loop:
 class Contract:
     key: str
     requires: List[str] = field(default_factory=list)
+    assume_entry: List[Tuple[str, str]] = field(default_factory=list)  # (clause, justification): ASSUMED when proving this function, not
+    # demanded from callers; every one is listed in the evidence file
     definitions: List[str] = field(default_factory=list)  # definitional axioms of opaque spec predicates (conservative extensions):
     # assumed while proving THIS function only, so that callers see the predicate as an opaque name
     ensures: List[str] = field(default_factory=list)
